@@ -6,6 +6,7 @@
 package control
 
 import (
+	"runtime"
 	"sync"
 	"sync/atomic"
 	"time"
@@ -186,6 +187,17 @@ func (q *UdpTaskQueue) convoy() {
 				continue
 			}
 
+			// The claim succeeded at refs == 0: no EmitTask is in flight and none
+			// can start. A task enqueued between the emptiness check above and
+			// the claim is visible now, so re-check before discarding the queue;
+			// otherwise that task would be lost and the recycled channel would
+			// later run it under another flow.
+			if len(q.ch) > 0 || q.overflowLen.Load() > 0 {
+				q.refs.Store(0)
+				q.safeTimerReset(timer)
+				continue
+			}
+
 			// Try to delete from pool using CAS-like semantics via sync.Map
 			if q.p.tryDeleteQueue(q.key, q) {
 				q.p.queueChPool.Put(q.ch)
@@ -269,8 +281,11 @@ createNew:
 		for {
 			refs := q.refs.Load()
 			if refs < 0 {
-				// Use CompareAndDelete to only delete if still the same draining queue
-				p.queues.CompareAndDelete(key, q)
+				// The convoy has claimed q for idle GC. It either removes q from
+				// the table or rolls the claim back (a task slipped in first), so
+				// q must not be replaced here: a second queue for the same key
+				// would run tasks concurrently with the ones still in q.
+				runtime.Gosched()
 				goto createNew
 			}
 			if q.refs.CompareAndSwap(refs, refs+1) {
